@@ -51,6 +51,9 @@ type C16Case struct {
 	Garbage []byte `json:"garbage,omitempty"`
 	// kind "get": replies to further GetStatus calls on the same client while the earlier results are still held
 	More [][]byte `json:"more,omitempty"`
+	// kind "get": the kernel's status reply is queued before the ACK of the request (either an error or the exact
+	// fields; the receive buffer is reused, so a reply kept across the next receive shows the ACK's bytes)
+	ReplyFirst bool `json:"reply_first,omitempty"`
 	// kind "seq": a second setter on the same client after a first one in the other wait mode whose
 	// acknowledgement carries PrevErrno and has not been waited for
 	Prev      string `json:"prev,omitempty"`
@@ -58,7 +61,7 @@ type C16Case struct {
 }
 
 func (c C16Case) Describe() string {
-	return fmt.Sprintf("kind=%s setter=%s u32=%d bool=%v nowait=%v prev=%s prev-errno=%d buf(%d)=%x garbage=%x more=%x", c.Kind, c.Setter, c.U32, c.Bool, c.NoWait, c.Prev, c.PrevErrno, len(c.Buf), c.Buf, c.Garbage, c.More)
+	return fmt.Sprintf("kind=%s setter=%s u32=%d bool=%v nowait=%v prev=%s prev-errno=%d buf(%d)=%x garbage=%x more=%x", c.Kind, c.Setter, c.U32, c.Bool, c.NoWait, c.Prev, c.PrevErrno, len(c.Buf), c.Buf, c.Garbage, c.More) + map[bool]string{true: " reply-before-ack", false: ""}[c.ReplyFirst]
 }
 
 var setters = []string{"SetPID", "SetRateLimit", "SetBacklogLimit", "SetEnabled", "SetImmutable", "SetFailure", "SetBacklogWaitTime"}
@@ -81,6 +84,7 @@ func genC16(t *rapid.T) C16Case {
 	case "get":
 		c.Buf = rapid.SliceOfN(rapid.Byte(), 32, 60).Draw(t, "status")
 		c.More = rapid.SliceOfN(rapid.SliceOfN(rapid.Byte(), 32, 60), 0, 3).Draw(t, "more")
+		c.ReplyFirst = rapid.IntRange(0, 3).Draw(t, "replyfirst") == 0
 	default:
 		n := rapid.OneOf(rapid.IntRange(0, 80), rapid.SampledFrom([]int{0, 1, 31, 32, 33, 35, 36, 40, 43, 44, 45, 48, 64})).Draw(t, "len")
 		c.Buf = rapid.SliceOfN(rapid.Byte(), n, n).Draw(t, "buf")
@@ -239,6 +243,11 @@ func propC16(c C16Case) error {
 		replies := append([][]byte{c.Buf}, c.More...)
 		call := 0
 		k.OnSend = func(k *simk.K, s simk.Sent) {
+			if c.ReplyFirst {
+				k.Push(simk.Msg(uint16(uapi.A("AUDIT_GET")), 0, s.Seq, 0, replies[call]))
+				k.Push(simk.Ack(s.Seq, 0, s.Type))
+				return
+			}
 			k.Push(simk.Ack(s.Seq, 0, s.Type))
 			k.Push(simk.Msg(uint16(uapi.A("AUDIT_GET")), 0, s.Seq, 0, replies[call]))
 		}
@@ -246,6 +255,10 @@ func propC16(c C16Case) error {
 		var held []*libaudit.AuditStatus
 		for call = range replies {
 			st, err := cl.GetStatus()
+			if c.ReplyFirst && err != nil && st == nil {
+				hC16.Class("get-reply-before-ack-refused")
+				return nil // refusing the unexpected order is fine; wrong fields would not be
+			}
 			if err != nil || st == nil {
 				return fmt.Errorf("GetStatus call %d with a %d-byte reply: %v", call+1, len(replies[call]), err)
 			}
